@@ -2,8 +2,9 @@
 (XV.Spec.Unescape) reads it back.  Core Lean only. -/
 import XV.Model.Formatter
 import XV.Spec.Unescape
+import XV.Spec.Escaping
 namespace XV.Lemmas.Formatter
-open XV.Model.Formatter XV.Gen.Escapes
+open XV.Model.Formatter XV.Gen.Escapes XV.Spec.Escaping
 open XV.Spec.Unescape (numAcc hexDigit decodeRef readChars St refOK literalOK legalUnits)
 
 /-! ### hex -/
@@ -176,28 +177,6 @@ theorem handle_ok (cd : Coder) (unrep : UnRepFlags) (run : List Nat) (h : ∀ u 
     · simp [hp, xcodePairs_wf _ _ _ (Nat.le_refl _) (hw hp)]
     · simp [hp, xcodeUnits_rep cd _ _ h]
 
-
-/-! ### what the formatter writes, as a function of the input (reference escaper) -/
-
-def refText (c : Nat) : List Nat :=
-  if c = 38 then gAmpRef else if c = 39 then gAposRef else if c = 34 then gQuoteRef
-  else if c = 62 then gGTRef else if c = 60 then gLTRef else charRefText c
-
-/-- is `c` written as a reference in escape mode `esc`? (NoEscapes never consults the table) -/
-def escd (cfg : Cfg) (esc : EscapeFlags) (c : Nat) : Bool := esc != .NoEscapes && inEscapeList cfg esc c
-
-def escPlain (cfg : Cfg) (esc : EscapeFlags) (l : List Nat) : List Nat :=
-  l.flatMap (fun c => if escd cfg esc c then refText c else [c])
-
-def escUnits (cd : Coder) (cfg : Cfg) (esc : EscapeFlags) : List Nat → List Nat
-  | [] => []
-  | [c] =>
-    if cd.rep c then (if escd cfg esc c then refText c else [c])
-    else if isHigh c then charRefText (pairRef c 0) else charRefText c
-  | c :: n :: t =>
-    if cd.rep c then (if escd cfg esc c then refText c else [c]) ++ escUnits cd cfg esc (n :: t)
-    else if isHigh c then charRefText (pairRef c n) ++ escUnits cd cfg esc t
-    else charRefText c ++ escUnits cd cfg esc (n :: t)
 
 theorem escPlain_append (cfg : Cfg) (esc : EscapeFlags) (a b : List Nat) :
     escPlain cfg esc (a ++ b) = escPlain cfg esc a ++ escPlain cfg esc b := by
